@@ -1,7 +1,8 @@
 """C08 — TOML output is nothing or exactly one valid document (structure of the TOML output type)."""
 from engine import rule, AnchorLost
-from model import Super, PathSens, fn_of, trace, strace, is_place, site, const_value, uses_of_local
+from model import Super, PathSens, fn_of, trace, strace, strace_deep, is_place, site, const_value, uses_of_local
 import common
+import flagstate
 
 
 def _entries(ctx):
@@ -36,136 +37,89 @@ def _consumers(sup):
     return out
 
 
-def _guard(sup):
-    """The one-shot guard: a switch on a bool field of the root's `self`, read directly
-    (`if self.used {..} self.used = true`) or through `mem::replace(&mut self.used, true)`.
-    Returns (node, field_name, adt, true_edge, false_edge, setter_nodes) or None."""
-    for n in sorted(sup.nodes(), key=str):
+def _set_nodes(sup, flag):
+    """Nodes of the supergraph that put the flag into its SET state (assignment or mem::replace)."""
+    out = []
+    for n in sup.nodes():
         b = sup.body_of(n)
-        t = b.blocks[n[1]]["term"]
-        if t["k"] != "switch" or t.get("discr_ty") != "bool":
-            continue
-        tr = strace(sup, n, t["discr"])
-        setters = None
-        if tr.origin and tr.origin[0] == "call" and (fn_of(tr.origin[2]) or {}).get("def") == "std::mem::replace" and all(s[0] == "use" for s in tr.steps):
-            rc = tr.origin[2]
-            if const_value(rc["args"][1]) is not True:
-                continue
-            rnode = (tr.origin_node[0], tr.origin[1])
-            tr = strace(sup, rnode, rc["args"][0])
-            setters = [rnode]
-        fields = [s for s in tr.steps if s[0] == "field"]
-        if tr.origin and tr.origin[0] == "arg" and tr.origin[1] == 1 and not tr.origin_node[0] and fields:
-            tgt0 = [tt for v, tt in t["targets"] if v == 0]
-            if not tgt0:
-                continue
-            false_edge = (n, 0, (n[0], tgt0[0]))
-            true_edge = (n, "otherwise", (n[0], t["otherwise"]))
-            return n, fields[0][1], fields[0][2], true_edge, false_edge, setters
-    return None
-
-
-def _sets_field_true(sup, node, field):
-    b = sup.body_of(node)
-    for s in b.blocks[node[1]]["stmts"]:
-        if s["k"] == "assign" and s["p"]["pr"] and s["p"]["pr"][-1]["k"] == "field" and s["p"]["pr"][-1]["name"] == field:
-            rv = s["rv"]
-            if rv["k"] == "use" and rv["op"].get("k") == "const" and rv["op"].get("v") is True:
-                return True
-    return False
+        blk = b.blocks[n[1]]
+        for s in blk["stmts"]:
+            if s["k"] == "assign" and flagstate._is_field_place(s["p"], flag):
+                rv = s["rv"]
+                role = None
+                if rv["k"] == "use":
+                    role = flag.role(flagstate._const_state(b, rv["op"], flag))
+                elif rv["k"] == "aggregate" and rv.get("adt") == flag.enum:
+                    role = flag.role(rv.get("variant"))
+                if role == flagstate.SET:
+                    out.append(n)
+        t = blk["term"]
+        if t["k"] == "call" and (fn_of(t) or {}).get("def") == "std::mem::replace" and len(t["args"]) == 2 and flagstate._reads_field(b, t["args"][0], flag):
+            if flag.role(flagstate._const_state(b, t["args"][1], flag)) == flagstate.SET:
+                out.append(n)
+    return out
 
 
 @rule("R08.1", 6, "one-shot guard dominates every write and every consumption of the input; flag never re-armed", ["C08"])
 def r08_1(ctx):
     o, entries = _entries(ctx)
     lib = ctx.lib
+    flags = flagstate.flags_of(lib, o["adt"])
+    guard_flag = None
     for e in entries:
         sup = Super(lib, e, depth=3)
         ps = PathSens(sup)
         sites = [("write", x) for x in _w_sites(sup)] + [("consume", x) for x in _consumers(sup)]
-        g = _guard(sup)
+        g = None
+        for fl in flags:
+            for tst in flagstate.tests(sup, fl):
+                if g is None:
+                    g = (fl, tst)
         if g is None:
             for kind, (n, b, t) in sites:
                 ctx.ob(f"{e.name}:{kind}:{fn_of(t)['name']}:guarded", False, sup.site(n),
-                       "no test of a bool field of the output object precedes this site (one-shot guard missing)")
+                       "no test of a two-state flag of the output object precedes this site (one-shot guard missing)")
             if not sites:
                 ctx.ob(f"{e.name}:no-sites", True, site(e), "entry point neither writes nor consumes input", trivial=True)
             continue
-        gnode, field, adt, true_edge, false_edge, replace_nodes = g
-        # true edge: refuses — no write / consumption reachable, and no Ok return
-        rt = ps.reach_from_edge(*true_edge)
+        fl, tst = g
+        guard_flag = fl
+        gnode = tst["node"]
+        set_edge, clear_edge = tst["edges"][flagstate.SET], tst["edges"][flagstate.CLEAR]
+        field = fl.field
+        # already used: refuses — no write / consumption reachable, and no Ok return
+        rt = ps.reach_from_edge(*set_edge)
         bad = [x for _, x in sites if x[0] in rt]
         ctx.ob(f"{e.name}:guard-true-edge-refuses", not bad, sup.site(gnode),
                f"flag `{field}` already set: reaches {[fn_of(x[2])['name'] for x in bad]}" if bad else f"flag `{field}` set => only error return reachable")
         ok_ret = [n for n in rt if _assigns_ok(sup, n)]
         ctx.ob(f"{e.name}:guard-true-edge-errs", not ok_ret, sup.site(gnode),
                "the refusing edge can still return Ok" if ok_ret else "refusing edge never builds Ok")
-        # false edge: flag is set before any site
-        setters = [n for n in sup.nodes() if _sets_field_true(sup, n, field)]
+        # still clear: the flag is set before any site
+        setters = _set_nodes(sup, fl)
+        replaced = tst["how"] == "replace" and tst.get("wrote") == flagstate.SET
         for kind, (n, b, t) in sites:
             name = fn_of(t)["name"]
-            dom = ps.edge_dominates(false_edge[0], false_edge[1], false_edge[2], n)
+            dom = ps.edge_dominates(clear_edge[0], clear_edge[1], clear_edge[2], n)
             ctx.ob(f"{e.name}:{kind}:{name}:guarded", dom, sup.site(n),
                    f"every path to this {kind} takes the flag-clear edge of the guard" if dom else
                    f"a path reaches this {kind} without passing the one-shot guard on `{field}`")
-            reach_wo_set = ps.reach_from_edge(*false_edge, removed_nodes=setters)
-            # mem::replace(&mut flag, true) sets the flag before the guard's branch is even taken
-            armed = n not in reach_wo_set or (bool(replace_nodes) and all(sup.dominates(r_, gnode) for r_ in replace_nodes))
+            reach_wo_set = ps.reach_from_edge(*clear_edge, removed_nodes=setters)
+            # mem::replace(&mut flag, SET) sets the flag before the guard's branch is even taken
+            armed = n not in reach_wo_set or replaced
             ctx.ob(f"{e.name}:{kind}:{name}:flag-set-before", armed, sup.site(n),
-                   f"`{field} = true` precedes the {kind} on every path" if armed else
-                   f"`{field}` is not set to true on some path from the guard to this {kind}")
-    # field-write rule: the flag is assigned `false` only by the constructor aggregate
-    g_any = None
-    for e in entries:
-        g_any = _guard(Super(lib, e, depth=3)) or g_any
-    if g_any:
-        field, adt = g_any[1], g_any[2]
-        n_writes = 0
-        for b in lib.bodies:
-            for bi, blk in enumerate(b.blocks):
-                for s in blk["stmts"]:
-                    if s["k"] != "assign" or not s["p"]["pr"]:
-                        continue
-                    last = s["p"]["pr"][-1]
-                    if last["k"] == "field" and last["name"] == field and last.get("adt") == adt:
-                        n_writes += 1
-                        rv = s["rv"]
-                        is_true = rv["k"] == "use" and rv["op"].get("k") == "const" and rv["op"].get("v") is True
-                        ctx.ob(f"flag-write:{b.name}", is_true, site(b, line=s["line"]),
-                               "assigns true" if is_true else f"`{field}` is assigned something other than `true` (re-arms the one-shot guard)")
-        for b in lib.bodies:
-            for bi, blk in enumerate(b.blocks):
-                for s in blk["stmts"]:
-                    if s["k"] != "assign" or s["rv"]["k"] != "ref" or not s["rv"].get("mut") or not s["rv"]["p"]["pr"]:
-                        continue
-                    last = s["rv"]["p"]["pr"][-1]
-                    if not (last["k"] == "field" and last["name"] == field and last.get("adt") == adt):
-                        continue
-                    n_writes += 1
-                    ok_b = False
-                    if not s["p"]["pr"]:
-                        cur = s["p"]["l"]
-                        for _ in range(4):
-                            us = [(ub, ui, how) for ub, ui, how in uses_of_local(b, cur) if how != "drop"]
-                            if len(us) != 1:
-                                break
-                            ub, ui, how = us[0]
-                            if isinstance(how, tuple) and how[0] == "callarg":
-                                ct = b.blocks[ub]["term"]
-                                ok_b = (fn_of(ct) or {}).get("def") == "std::mem::replace" and is_place(ct["args"][0]) and ct["args"][0]["p"]["l"] == cur and const_value(ct["args"][1]) is True
-                                break
-                            if how == "stmt":
-                                s2 = b.blocks[ub]["stmts"][ui]
-                                rv2 = s2["rv"]
-                                reborrow = rv2["k"] == "ref" and rv2["p"]["l"] == cur and [e["k"] for e in rv2["p"]["pr"]] == ["deref"]
-                                moved = rv2["k"] == "use" and is_place(rv2["op"]) and rv2["op"]["p"]["l"] == cur and not rv2["op"]["p"]["pr"]
-                                if (reborrow or moved) and not s2["p"]["pr"]:
-                                    cur = s2["p"]["l"]
-                                    continue
-                            break
-                    ctx.ob(f"flag-write:{b.name}", ok_b, site(b, line=s["line"]),
-                           "mutable borrow feeds mem::replace(_, true) only" if ok_b else f"`&mut {field}` escapes: the one-shot flag can be re-armed")
-        ctx.ob("flag-writes-present", n_writes >= 1, adt, f"{n_writes} assignment(s) to `{field}`")
+                   f"`{field}` is set before the {kind} on every path" if armed else
+                   f"`{field}` is not set on some path from the guard to this {kind}")
+    # field-write rule: outside the constructor the flag is only ever SET, and `&mut flag` feeds mem::replace only
+    if guard_flag is not None:
+        fl = guard_flag
+        ws = flagstate.writes(lib, fl)
+        for b, bi, role, how in ws:
+            ok_w = role == flagstate.SET
+            ctx.ob(f"flag-write:{b.name}", ok_w, site(b, bi), f"{how}: puts `{fl.field}` into its set state" if ok_w else f"`{fl.field}` is assigned something other than its set state (re-arms the one-shot guard)")
+        for b, bi in flagstate.mut_borrow_escapes(lib, fl):
+            ctx.ob(f"flag-write:{b.name}", False, site(b, bi), f"`&mut {fl.field}` escapes: the one-shot flag can be re-armed")
+        ctx.ob("flag-writes-present", len(ws) >= 1, fl.adt, f"{len(ws)} store(s) into `{fl.field}`")
 
 
 def _assigns_ok(sup, node):
@@ -296,7 +250,7 @@ def r08_4(ctx):
         for n, b, t in sup.calls():
             f = fn_of(t)
             if f and f["crate"] == "toml" and f["name"].startswith("to_string"):
-                tr = strace(sup, n, t["args"][0])
+                tr = strace_deep(sup, n, t["args"][0])
                 # origin must be the result of a call that consumed the input argument
                 ok = False
                 detail = f"serialised value originates from {tr.origin[0] if tr.origin else None}"
